@@ -51,9 +51,17 @@ def check_case(case):
     res = Result()
     spec, enc = case['spec'], case['enc']
     res.classes = specs.labels(spec)+['enc_'+enc]
+    from .. import refsel
+    try:
+        ref_empty = len(refsel.Model(spec).feasible_archs(arch_max=2000)) == 0
+    except refsel.TooLarge:
+        ref_empty = False
     obs = observe(case, vectors=[])
     if obs.build_exc is not None:
         res.classes.append('construct_failed_not_judged_here')
+        return res
+    if ref_empty:
+        res.classes.append('ref_empty_not_judged_here')   # C01: only an explicit error is required
         return res
     meta, gp, b = obs.des_vars, obs.gp, obs.b
     linked = {}
